@@ -8,6 +8,12 @@
 //   E arch fflags id mnem options <extra> comment n <op>*n
 //                         -> "E <err> <hex of appended bytes or -> <logger line, '\n' shown as '$'>"
 //                            really emits with an Assembler + StringLogger(fflags); labels L0..L3 bound, L4..L7 unbound
+//   W fflags optype vidx vtype name|-   -> "W <text>"  Formatter::format_operand of a VIRTUAL register (x86::Compiler session)
+//   U fflags nv (vtype name|-)*nv <M op>  -> "U <text>"  format_operand of a memory operand whose base/index may be virtual ids
+//   B id <description ignored>          -> "B <text>"  Formatter::format_label on the x86-64 emission session's labels
+//   Y a64 size rep hexbytes            -> "Y <text>"  Formatter::format_data (size 1 2 4 8 16 = uint8..uint64, uint8x16)
+//   Z fflags inline|- <node>           -> "Z <text>"  Formatter::format_node on a fresh x86::Builder: L | A mode n | C text |
+//                                         D size count rep | S name | I id mnem options <extra> n <op>*n
 //   <op>    := N | R type id | I value | L id | M size seg addr basekind basetype baseid hasindex indextype indexid shift off bcst
 //              (x86)  basekind 0 none 1 label 2 reg
 //            | V type id elemtype elemindex(-1 none)                       (a64 vector/gp register with element)
@@ -141,8 +147,28 @@ struct Session {
   }
 };
 
+struct CompilerSession {
+  CodeHolder code;
+  x86::Compiler cc;
+  std::vector<Reg> regs;
+  bool live = false;
+  void start() {
+    code.init(Environment(Arch::kX64));
+    code.attach(&cc);
+    regs.push_back(cc.new_gp32());          // %0  gpd
+    regs.push_back(cc.new_gp64("cnt"));     // cnt gpq
+    regs.push_back(cc.new_xmm());           // %2  xmm
+    regs.push_back(cc.new_ymm("acc"));      // acc ymm
+    regs.push_back(cc.new_gp16());          // %4  gpw
+    regs.push_back(cc.new_zmm("z"));        // z   zmm
+    regs.push_back(cc.new_gp8("b8"));       // b8  gpb
+    live = true;
+  }
+};
+
 int main() {
   static Session S;
+  static CompilerSession CS;
   std::string line;
   char buf[1 << 16];
   while (fgets(buf, sizeof(buf), stdin)) {
@@ -232,6 +258,92 @@ int main() {
         for (char& c : lg) if (c == '\n') c = '$';
         printf("E %u %s %s\n", unsigned(e), bytes.c_str(), lg.c_str());
       }
+    }
+    else if (cmd == "Y") {
+      uint32_t a64, size, rep; std::string hx;
+      in >> a64 >> size >> rep >> hx;
+      std::vector<uint8_t> data;
+      for (size_t i = 0; i + 1 < hx.size(); i += 2) data.push_back(uint8_t(strtoul(hx.substr(i, 2).c_str(), nullptr, 16)));
+      TypeId tid = size == 1 ? TypeId::kUInt8 : size == 2 ? TypeId::kUInt16 : size == 4 ? TypeId::kUInt32 : size == 8 ? TypeId::kUInt64 : TypeId::kUInt8x16;
+      String sb;
+      Error e = Formatter::format_data(sb, FormatFlags::kNone, a64 ? Arch::kAArch64 : Arch::kX64, tid, data.data(), data.size() / size, rep);
+      printf("Y %s%s\n", e == Error::kOk ? "" : "<error>", sb.data());
+    }
+    else if (cmd == "Z") {
+      uint32_t ff; std::string inl, kind;
+      in >> ff >> inl >> kind;
+      CodeHolder code; code.init(Environment(Arch::kX64));
+      x86::Builder b(&code);
+      static std::string keep;
+      Error e = Error::kOk;
+      if (kind == "L") { Label l = b.new_label(); e = b.bind(l); }
+      else if (kind == "A") { uint32_t mode, n; in >> mode >> n; e = b.align(AlignMode(mode), n); }
+      else if (kind == "C") { std::string c; in >> c; e = b.comment(c.c_str()); }
+      else if (kind == "D") {
+        uint32_t size, count, rep; in >> size >> count >> rep;
+        std::vector<uint8_t> z(size_t(size) * count, 0);
+        TypeId tid = size == 1 ? TypeId::kUInt8 : size == 2 ? TypeId::kUInt16 : size == 4 ? TypeId::kUInt32 : TypeId::kUInt64;
+        e = b.embed_data_array(tid, z.data(), count, rep);
+      }
+      else if (kind == "S") { std::string nm; in >> nm; Section* sec = nullptr; e = code.new_section(Out<Section*>(sec), nm.c_str()); if (e == Error::kOk) e = b.section(sec); }
+      else if (kind == "I") {
+        uint32_t id, opts; std::string mnem; in >> id >> mnem >> opts;
+        Operand_ ex; read_op(in, ex);
+        uint32_t n; in >> n; Operand_ ops[6]; for (auto& o : ops) o = Operand();
+        for (uint32_t i = 0; i < n && i < 6; i++) read_op(in, ops[i]);
+        b.set_inst_options(InstOptions(opts));
+        if (ex.is_reg()) b.set_extra_reg(ex.as<Reg>());
+        Operand_ ext[3] = { ops[3], ops[4], ops[5] };
+        e = b._emit(id, ops[0], ops[1], ops[2], ext);
+      }
+      BaseNode* node = b.last_node();
+      if (e != Error::kOk || !node) { printf("Z <error %u>\n", unsigned(e)); continue; }
+      if (inl != "-") { keep = inl; node->set_inline_comment(keep.c_str()); }
+      FormatOptions fo; fo.set_flags(FormatFlags(ff));
+      String sb;
+      e = Formatter::format_node(sb, fo, &b, node);
+      printf("Z %s%s\n", e == Error::kOk ? "" : "<error>", sb.data());
+    }
+    else if (cmd == "W") {
+      uint32_t ff, optype, vidx, vtype; std::string name;
+      in >> ff >> optype >> vidx >> vtype >> name;
+      if (!CS.live) CS.start();
+      uint32_t id = Operand::virt_index_to_virt_id(vidx);
+      if (CS.cc.is_virt_id_valid(id)) {
+        VirtReg* vr = CS.cc.virt_reg_by_id(id);
+        std::string real = vr->name_size() ? std::string(vr->name(), vr->name_size()) : std::string("-");
+        if (uint32_t(vr->reg_type()) != vtype || real != name) { printf("W <table-mismatch %u %s>\n", unsigned(vr->reg_type()), real.c_str()); continue; }
+      }
+      else if (name != "!") { printf("W <table-mismatch invalid>\n"); continue; }
+      Operand_ op = Reg::from_type_and_id(RegType(optype), id);
+      String sb;
+      Error e = Formatter::format_operand(sb, FormatFlags(ff), &CS.cc, Arch::kX64, op);
+      printf("W %s%s\n", e == Error::kOk ? "" : "<error>", sb.data());
+    }
+    else if (cmd == "U") {
+      uint32_t ff, nv; in >> ff >> nv;
+      if (!CS.live) CS.start();
+      bool okt = nv == CS.regs.size();
+      for (uint32_t k = 0; k < nv; k++) {
+        uint32_t vt; std::string nm; in >> vt >> nm;
+        if (okt) {
+          VirtReg* vr = CS.cc.virt_reg_by_id(Operand::virt_index_to_virt_id(k));
+          std::string real = vr->name_size() ? std::string(vr->name(), vr->name_size()) : std::string("-");
+          if (uint32_t(vr->reg_type()) != vt || real != nm) okt = false;
+        }
+      }
+      Operand_ op;
+      if (!okt || !read_op(in, op)) { printf("U <table-mismatch>\n"); continue; }
+      String sb;
+      Error e = Formatter::format_operand(sb, FormatFlags(ff), &CS.cc, Arch::kX64, op);
+      printf("U %s%s\n", e == Error::kOk ? "" : "<error>", sb.data());
+    }
+    else if (cmd == "B") {
+      uint32_t id; in >> id;
+      if (!S.live || S.arch != Arch::kX64) S.start(Arch::kX64);
+      String sb;
+      Error e = Formatter::format_label(sb, FormatFlags::kNone, S.as, id);
+      printf("B %s%s\n", e == Error::kOk ? "" : "<error>", sb.data());
     }
     else {
       printf("? unknown command\n");
